@@ -453,7 +453,9 @@ pub fn c13(tier: &str) -> i32 {
 /// (update; vacuum)^n: live storage must stop growing after the first cycle.
 fn c13_boundedness(tier: &str) -> i32 {
     use crate::sqldrv::Db;
-    let n = if tier == "quick" { 8 } else { 40 };
+    // 3 updates per row and cycle: 100 cycles give every row 300 versions over its life (the version counter is one byte
+    // and has to be reset by VACUUM), 300 cycles 900
+    let n = if tier == "quick" { 100 } else { 300 };
     let mut db = match Db::create("c13b", Cfg::default()) {
         Ok(d) => d,
         Err(e) => {
@@ -462,9 +464,11 @@ fn c13_boundedness(tier: &str) -> i32 {
         }
     };
     // small fixed-size rows: growing TEXT updates hit an unrelated B+tree defect (see C10)
-    db.exec("CREATE TABLE g (k INT, v INT)");
+    // the rows differ in the length of an (unchanged) text column, 0..7 bytes, so that the stored tuples end at every
+    // offset modulo 8
+    db.exec("CREATE TABLE g (k INT, v INT, s TEXT)");
     for k in 0..8 {
-        db.exec(&format!("INSERT INTO g VALUES ({k}, 0)"));
+        db.exec(&format!("INSERT INTO g VALUES ({k}, 0, '{}')", "x".repeat(k)));
     }
     let mut sizes = vec![];
     for c in 0..n {
@@ -484,7 +488,7 @@ fn c13_boundedness(tier: &str) -> i32 {
             return 1;
         }
         let o = db.exec("SELECT * FROM g");
-        let expect: Vec<Vec<Val>> = (0..8).map(|k| vec![i(k), i((c * 10 + 2) as i128)]).collect();
+        let expect: Vec<Vec<Val>> = (0..8).map(|k| vec![i(k), i((c * 10 + 2) as i128), Val::Text("x".repeat(k as usize))]).collect();
         if !crate::engines::seq::conforms(&Exp::Rows(expect.clone()), &o) {
             println!("VIOLATION property=C13 replay=none");
             println!("  boundedness run: contents after cycle {c}: {}", o.show());
@@ -531,6 +535,29 @@ pub fn c15(tier: &str) -> i32 {
             Op::Reopen,
         ];
         searches.push(mk_search("C15", "create/drop/re-create t2 (two shapes), SET/DROP NOT NULL, CREATE UNIQUE INDEX, DML on both tables, DDL inside committed/rolled-back transactions, reopen", Cfg::default(), prefix, alpha, if quick { 5 } else { 7 }, if quick { 200_000 } else { 8_000_000 }, |p| {
+            p.reopen_end = true;
+        }));
+    }
+    {
+        // several indexes on one table (also over the same column list as an existing constraint), their names after
+        // DROP TABLE: an index lives and dies with its table, and its name is free again afterwards
+        let u2 = TableDef::simple("t2", &[("a", ColTy::Int), ("b", ColTy::Int)]).with_unique(&["a"]);
+        let prefix = vec![Op::Auto(Stmt::CreateTable(t_plain())), Op::Auto(ins("t", &[(1, 10)])), Op::Auto(Stmt::CreateTable(u2.clone())), Op::Auto(ins("t2", &[(1, 100)]))];
+        let cui = |name: &str, table: &str, col: &str| Op::Auto(Stmt::CreateUniqueIndex { name: name.into(), table: table.into(), cols: vec![col.into()] });
+        let alpha = vec![
+            cui("i2", "t2", "a"),
+            cui("i3", "t2", "b"),
+            cui("i2", "t", "k"),
+            cui("i3", "t", "v"),
+            Op::Auto(Stmt::DropTable("t2".into())),
+            Op::Auto(Stmt::CreateTable(u2)),
+            Op::Auto(ins("t2", &[(1, 101)])),
+            Op::Auto(ins("t2", &[(2, 200)])),
+            Op::Auto(ins("t", &[(2, 20)])),
+            Op::Vacuum,
+            Op::Reopen,
+        ];
+        searches.push(mk_search("C15", "index names: second and third unique index on a table (one over the column list of its UNIQUE constraint), DROP TABLE, re-use of the index names on another table, re-creation of the table, VACUUM, reopen", Cfg::default(), prefix, alpha, if quick { 4 } else { 6 }, if quick { 100_000 } else { 4_000_000 }, |p| {
             p.reopen_end = true;
         }));
     }
